@@ -122,6 +122,39 @@ impl TransactionTracker {
         }
     }
 
+    // Verification hook: a read-only copy of the tracker state
+    #[cfg(redb_verif)]
+    pub(crate) fn verif_snapshot(&self) -> crate::verif::TrackerSnapshot {
+        let state = self.state.lock().unwrap();
+        crate::verif::TrackerSnapshot {
+            next_savepoint_id: state.next_savepoint_id.0,
+            next_transaction_id: state.next_transaction_id.raw_id(),
+            live_write_transaction: state.live_write_transaction.map(|t| t.raw_id()),
+            live_read_transactions: state
+                .live_read_transactions
+                .iter()
+                .map(|(t, c)| (t.raw_id(), *c))
+                .collect(),
+            valid_savepoints: state
+                .valid_savepoints
+                .iter()
+                .map(|(s, t)| (s.0, t.raw_id()))
+                .collect(),
+            persistent_savepoints: state.persistent_savepoints.iter().map(|s| s.0).collect(),
+            pending_non_durable_commits: state
+                .pending_non_durable_commits
+                .iter()
+                .map(|(t, a)| (t.raw_id(), a.raw_id()))
+                .collect(),
+            unprocessed_freed_non_durable_commits: state
+                .unprocessed_freed_non_durable_commits
+                .iter()
+                .map(|t| t.raw_id())
+                .collect(),
+            deferred_close: state.deferred_close.is_some(),
+        }
+    }
+
     pub(crate) fn start_write_transaction(&self) -> TransactionId {
         let mut state = self.state.lock().unwrap();
         while state.live_write_transaction.is_some() {
